@@ -458,4 +458,23 @@ def gen_runave(r, k, T):
             "it0": 0, "pos": walk(r, T, 1, lo=-4, hi=4, bits=3), "prefix_per_run": True}
 
 
-FAMILIES = {"runave": gen_runave, "histrestraint": gen_histrestraint, "eabf": gen_eabf, "opes": gen_opes, "restraint": gen_restraint, "histogram": gen_histogram, "extlag": gen_extlag, "abmd": gen_abmd, "alb": gen_alb, "abf": gen_abf, "meta": gen_meta}
+# ------------------------------------------------------------------------------------------------ several objects
+def gen_multi(r, k, T):
+    """two or three variables and four to five biases of different kinds in one state file"""
+    cfg = []
+    cfg += cv_block(0, width=1.0, lower=-4.0, upper=4.0)
+    cfg += cv_block(1, width=0.5, lower=-3.0, upper=3.0)
+    tc = V.dyadic(r, -2, 2, bits=2)
+    B = ["harmonic {", "  name r", "  colvars v0", "  forceConstant 2.0", "  centers %r" % V.dyadic(r, -2, 2, bits=2),
+         "  targetCenters %r" % tc, "  targetNumSteps %d" % r.choice([4, 8]), "  outputAccumulatedWork on", "}",
+         "histogram {", "  name h", "  colvars v0 v1", "}",
+         "abmd {", "  name a", "  colvars v1", "  forceConstant 1.0", "  stoppingValue 2.5", "}",
+         "metadynamics {", "  name m", "  colvars v1", "  hillWeight 0.5", "  newHillFrequency 2", "  hillWidth 2.0",
+         "  keepHills %s" % r.choice(["on", "off"]), "}",
+         "harmonicWalls {", "  name w", "  colvars v0", "  lowerWalls -3.0", "  upperWalls 3.0", "  forceConstant 1.0",
+         "  targetForceConstant 4.0", "  targetNumSteps 3", "  targetNumStages 2", "}"]
+    return {"fam": "multi", "tags": ["multi", "2cv+5biases"], "sigtags": [], "natoms": 2, "setup": ["temperature 300.0"],
+            "config": cfg + B, "it0": r.choice([0, 4]), "pos": walk(r, T, 2, lo=-2.5, hi=2.5, bits=3), "shuffle": True}
+
+
+FAMILIES = {"multi": gen_multi, "runave": gen_runave, "histrestraint": gen_histrestraint, "eabf": gen_eabf, "opes": gen_opes, "restraint": gen_restraint, "histogram": gen_histogram, "extlag": gen_extlag, "abmd": gen_abmd, "alb": gen_alb, "abf": gen_abf, "meta": gen_meta}
